@@ -77,6 +77,9 @@ MUTANTS = [
     ("C19", "kf-dims-3n-2", P + "rdnetwork.py", "        return UnitsDimensions(space=-3+3*count, time=-1, quantity=1-count)\n\n    def kr_units_dimensions", "        return UnitsDimensions(space=-2+3*count, time=-1, quantity=1-count)\n\n    def kr_units_dimensions", "C19.DIMS"),
     ("C19", "overwrite-repeated-label", P + "rdnetwork.py", "                        d[label] += coef", "                        d[label] = coef", "C19.ACCUM"),
     ("C19", "split-reverse-keeps-kf", P + "rdnetwork.py", "            kf = self.kr,", "            kf = self.kf,", "C19.SPLIT"),
+    ("C19", "K-inverted-per-env", P + "rdnetwork.py", "                    r[i] = vf/vr", "                    r[i] = vr/vf", "C19.K"),
+    ("C19", "K-zero-test-on-kf", P + "rdnetwork.py", "                if vr.value == 0:", "                if vf.value == 0:", "C19.K"),
+    ("C19", "K-scalar-no-zero-test", P + "rdnetwork.py", "            if self.kr.value == 0:", "            if self.kr.value is None:", "C19.K"),
     ("C19", "sto-matrix-transposed", P + "librdengine.py", "            sto[s*n_reactions+r] = reactions[r].dsto(species_labels)[s]", "            sto[r*n_species+s] = reactions[r].dsto(species_labels)[s]", "C19.MATRIX"),
     # ---- C20
     ("C20", "reader-skips-key-check", P + "rdnetwork.py", "    d = valproc.process_input_dict_keys(d, [\n                [\"species\"],", "    valproc.process_input_dict_keys({}, [\n                [\"species\"],", "C20.KEYS"),
